@@ -1497,10 +1497,10 @@ static void do_bad(const Op* o) {
       for (int t = 0; t < 200 && !found; t++) { akv = keyval(c->kind, c->kt, x + t); if (map_find(c, akv) < 0) found = 1; }
       /* known finding (known_findings.jsonl): Table_Set_Move (always) and Tree_Set (fresh key) construct the key copy before
        * the value copy; when the value's Assign raises, the key copy is never finalised - one live element more than the
-       * containers hold.  Those cases are injected only when the plan asks for them (env kf.enable bit 1, set by the probe). */
-      int leak_ok = (int)(g_kf_enable & 1);
-      int can_val_fresh = c->vt == ET_TOK && found && leak_ok;
-      int can_val_exist = c->vt == ET_TOK && n && (c->kind == K_TREE || leak_ok);
+       * containers hold.  The leaked copy is written off (tok_forgive) unless the plan asks for it to be reported (env
+       * kf.enable bit 1, set by the probe); everything else about the failed call is judged as usual. */
+      int can_val_fresh = c->vt == ET_TOK && found;
+      int can_val_exist = c->vt == ET_TOK && n;
       int can_key = c->kt == ET_TOK;
       if (can_val_fresh && (w == 0 || !can_val_exist)) { what = "set-fresh-key-refused-value"; try { set(obj, MKVAL(c->kt, akv), TOK_T(TOK_REFUSED)); } catch (e) { ex = e; } }
       else if (can_val_exist && (w <= 1 || !can_key)) { what = "set-existing-key-refused-value"; try { set(obj, MKVAL(c->kt, c->k[(((x / 12) % n) + n) % n]), TOK_T(TOK_REFUSED)); } catch (e) { ex = e; } }
@@ -1508,6 +1508,11 @@ static void do_bad(const Op* o) {
       else return;
     }
     stat_add("bad.refused-by-element-assign", 1);
+    if (refuse_map && !(g_kf_enable & 1) && tok_live() > tl && c->kt == ET_TOK) {
+      /* the key copy of the known finding: written off unless the plan asks for it to be reported */
+      stat_add("bad.known_key_copy_leak_written_off", tok_live() - tl);
+      tok_forgive(tok_live() - tl);
+    }
     goto bad_tail;
   }
   if (kind >= 28 && (g_focus == 12 || g_focus == 0)) {
